@@ -14,8 +14,9 @@ AncSeq == <<<<1,0,0>>, <<0,1,0>>, <<0,0,1>>, <<1,1,1>>, <<-1,0,2>>>>
 Prefix(s, n) == [i \in 1..n |-> s[i]]
 Scalar(x) == [scalar |-> TRUE, v |-> <<x>>]
 Vector(s) == [scalar |-> FALSE, v |-> s]
-Disps == {Scalar(<<1,-2,3>>)} \cup {Vector(Prefix(VecSeq, n)) : n \in 1..MaxIn}
-RotIns == {Scalar(Rz90)} \cup {Vector(Prefix(RotSeq, n)) : n \in 1..MaxIn}
+\* the neutral inputs (zero displacement, unit rotation) are ordinary inputs: they pad / append like any other
+Disps == {Scalar(<<1,-2,3>>), Scalar(Zero3)} \cup {Vector(Prefix(VecSeq, n)) : n \in 1..MaxIn}
+RotIns == {Scalar(Rz90), Scalar(IdM)} \cup {Vector(Prefix(RotSeq, n)) : n \in 1..MaxIn}
 Ancs == {NoAnchor, [kind |-> "vec", scalar |-> TRUE, v |-> <<Zero3>>], [kind |-> "vec", scalar |-> TRUE, v |-> <<<<1,1,0>>>>]}
         \cup {[kind |-> "vec", scalar |-> FALSE, v |-> Prefix(AncSeq, n)] : n \in 1..MaxIn}
 Starts == {AutoStart} \cup {IntStart(k) : k \in -MaxStart..MaxStart}
